@@ -553,7 +553,7 @@ func replayMisuse(raw json.RawMessage) []string {
 
 func runC15(ctx *core.Ctx, pool *par.Pool) {
 	cfgs := []pagedrv.Cfg{pagedrv.CfgA, pagedrv.CfgC}
-	depth := 6
+	depth := 7
 	ctx.SetBudget(100 * time.Second)
 	if !ctx.Quick() {
 		cfgs = []pagedrv.Cfg{pagedrv.CfgA, pagedrv.CfgB, pagedrv.CfgC, pagedrv.CfgD}
